@@ -52,6 +52,10 @@ def make(name: str, *args):
         from .readonly import ReadOnlyScenario
 
         return ReadOnlyScenario()
+    if name == "C19":
+        from .damage import DamageScenario
+
+        return DamageScenario()
     if name == "C11":
         from .lifecycle import LifecycleScenario
 
